@@ -384,6 +384,7 @@ type hwDoc struct {
 	_x     int
 	lower  string
 	Ünï    string
+	Ωmega  []string
 	Items  []*hwInner
 	Inner  hwInner
 	Ptr    *hwInner
@@ -392,7 +393,7 @@ type hwDoc struct {
 	Strs   []string
 }
 
-var hwExprs = []string{"_x", "lower", "Lower", "ünï", "Ünï", "Label", "label", "hwEmbedded", "HwEmbedded.Label", "NilPtr.[Name]", "NilPtr.{a: Name}",
+var hwExprs = []string{"_x", "lower", "Lower", "\"ünï\"", "\"Ünï\"", "Items[*].\"ünï\"", "\"ωmega\"", "@.\"Ωmega\"", "[\"ünï\", \"ωmega\"]", "{a: \"ünï\"}", "\"ünï\" || Name", "length(\"ünï\")", "Label", "label", "hwEmbedded", "HwEmbedded.Label", "NilPtr.[Name]", "NilPtr.{a: Name}",
 	"NilPtr || Name", "NilPtr && Name", "!NilPtr", "Items[*].Name", "Items[?Name].Tags[]", "Items[].Tags", "Items[0]", "Items[1]", "Items[1].[Name]", "Items[*].[Name]", "[Ptr, NilPtr]",
 	"reverse(Nums)", "reverse(Strs)", "contains(Strs, 'a')", "contains(Nums, `1`)", "map(&@, Nums)", "map(&Name, Items)", "sort_by(Items, &Name)", "max_by(Items, &Name)", "min_by(Items, &Name)",
 	"sort(Strs)", "sort(Nums)", "sum(Nums)", "avg(Nums)", "max(Nums)", "min(Strs)", "join(',', Strs)", "length(Items)", "length(Strs)", "length(Name)", "length(@)", "length(Inner)", "keys(@)", "values(@)",
@@ -408,7 +409,7 @@ var hwExprs = []string{"_x", "lower", "Lower", "ünï", "Ünï", "Label", "label
 func TestC18HandWritten(t *testing.T) {
 	in := &hwInner{Name: "n", Tags: []string{"x", "y"}}
 	docs := []interface{}{
-		hwDoc{Label: "lab", Score: 2.5, On: true, Labels: []hwLabel{"b", "a"}, Name: "d", Items: []*hwInner{in, nil, {Name: "", Tags: []string{}}}, Inner: *in, Ptr: in, Nums: []float64{2, 1}, Strs: []string{"b", "a"}},
+		hwDoc{Ünï: "u", Ωmega: []string{"o1", "o2"}, Label: "lab", Score: 2.5, On: true, Labels: []hwLabel{"b", "a"}, Name: "d", Items: []*hwInner{in, nil, {Name: "", Tags: []string{}}}, Inner: *in, Ptr: in, Nums: []float64{2, 1}, Strs: []string{"b", "a"}},
 		&hwDoc{Items: []*hwInner{}, Nums: []float64{}, Strs: []string{}},
 		(*hwDoc)(nil),
 		[]hwDoc{{Name: "x", Nums: []float64{1}, Strs: []string{"a"}, Items: []*hwInner{nil}}},
@@ -434,7 +435,8 @@ func TestC18HandWritten(t *testing.T) {
 	}
 	// nil pointer fields behave as null on hand-written types too
 	d := docs[0]
-	for e, want := range map[string]string{"NilPtr.[Name]": "null", "NilPtr.{a: Name}": "null", "NilPtr || Name": `"d"`, "!NilPtr": "true", "Items[1].[Name]": "null", "Items[*].[Name]": `[["n"],[""]]`, "[Ptr, NilPtr][1]": "null", "Items[*].Name": `["n",""]`, "not_null(NilPtr, Name)": `"d"`} {
+	for e, want := range map[string]string{"NilPtr.[Name]": "null", "NilPtr.{a: Name}": "null", "NilPtr || Name": `"d"`, "!NilPtr": "true", "Items[1].[Name]": "null", "Items[*].[Name]": `[["n"],[""]]`, "[Ptr, NilPtr][1]": "null", "Items[*].Name": `["n",""]`, "not_null(NilPtr, Name)": `"d"`,
+		`"ünï"`: `"u"`, `"Ünï"`: `"u"`, `"ωmega"[1]`: `"o2"`, `"Ωmega"[*]`: `["o1","o2"]`, `["ünï", "ωmega"[0]]`: `["u","o1"]`, `length("ünï")`: "1", `"ünï" || Name`: `"u"`, `{a: "ωmega"[::-1]}`: `{"a":["o2","o1"]}`} {
 		o := libSearch(e, d)
 		got, _ := normalise(o.Val)
 		if o.Panic != nil || o.Err != nil || ref.Canon(got) != want {
